@@ -168,6 +168,68 @@ def xattr(v):
     return v.replace('&', '&amp;').replace('<', '&lt;').replace('"', '&quot;').replace('\t', '&#9;').replace('\n', '&#10;')
 
 
+def _place_instruction(el, where, a, content, top, body, sorts, calls, rootattrs):
+    if where == 'root':
+        rootattrs.append(a)
+    elif where == 'top':
+        top.append('<%s %s>%s</%s>' % (el, a, content, el))
+    elif where == 'sort':
+        sorts.append('<%s %s/>' % (el, a))
+    elif where == 'call':
+        calls.append('<%s %s/>' % (el, a))
+    elif el == 'lre':
+        body.append('<lit %s>%s</lit>' % (a, content))
+    else:
+        body.append('<%s %s>%s</%s>' % (el, a, content, el))
+
+
+def _attribute_frame(top, body, sorts, calls, rootattrs, params):
+    decl = ''.join('<xsl:param name="%s"/>' % p for p in sorted(params))
+    root = ('<xsl:stylesheet xmlns:xsl="http://www.w3.org/1999/XSL/Transform" xmlns:x="urn:x" xmlns:xalan="http://xml.apache.org/xalan" %s>' % ' '.join(rootattrs)) if rootattrs else \
+           '<xsl:stylesheet version="1.0" xmlns:xsl="http://www.w3.org/1999/XSL/Transform" xmlns:x="urn:x" xmlns:xalan="http://xml.apache.org/xalan">'
+    sheet = (root + decl + ''.join(top) + '<xsl:template match="/"><out><xsl:for-each select="//*">' + ''.join(sorts) + '<i>' + ''.join(body) +
+             '<xsl:call-template name="r">' + ''.join(calls) + '</xsl:call-template><xsl:value-of select="format-number(1234.5, \'#,##0.0\')"/></i></xsl:for-each><xsl:apply-templates select="//node()|//@*"/><xsl:value-of select="count(key(\'kk\', \'a\'))"/></out></xsl:template>'
+             '<xsl:template name="r"><xsl:param name="n"/>r</xsl:template></xsl:stylesheet>')
+    return sheet
+
+
+def attribute_sweep_list():
+    """every (instruction shape, attribute, hostile value of the attribute's type), literally and - for attribute value templates - through a parameter"""
+    out = []
+    for ii, (el, where, attrs, content) in enumerate(INSTRUCTIONS):
+        for ai, (an, ty, usual, avt) in enumerate(attrs):
+            for v in ATTR_TYPES[ty]:
+                if el == 'xsl:output' and an == 'xalan:indent-amount' and re.match(r'^[ +]*[0-9]{6,}', v):
+                    continue        # legitimately huge work, see hostile_attribute_sheet
+                out.append((ii, ai, v, False))
+                if avt:
+                    out.append((ii, ai, v, True))
+    return out
+
+
+def attribute_sweep_sheet(ii, ai, v, as_param):
+    el, where, attrs, content = INSTRUCTIONS[ii]
+    top, body, sorts, calls, rootattrs, params, parts = [], [], [], [], [], {}, []
+    for i, (an, ty, usual, avt) in enumerate(attrs):
+        if i == ai:
+            val = v
+            if as_param:
+                params['hp0'] = v
+                val = '{$hp0}'
+            elif avt:
+                val = v.replace('{', '{{').replace('}', '}}')
+        elif usual is not None:
+            val = usual
+        else:
+            continue
+        parts.append('%s="%s"' % (an, xattr(val)))
+    _place_instruction(el, where, ' '.join(parts), content, top, body, sorts, calls, rootattrs)
+    return _attribute_frame(top, body, sorts, calls, rootattrs, params), params, '%s/@%s=%r%s' % (el, attrs[ai][0], v[:40], ' (through a parameter)' if as_param else '')
+
+
+ATTRIBUTE_SWEEP = attribute_sweep_list()
+
+
 def hostile_attribute_sheet(r):
     """returns (stylesheet, {parameter: value}, description)"""
     top, body, sorts, calls, rootattrs, params, desc = [], [], [], [], [], {}, []
@@ -197,24 +259,8 @@ def hostile_attribute_sheet(r):
             # the conversion of such numbers is driven directly instead (kind integer-conversion)
             parts = [x for x in parts if not (x.startswith('xalan:indent-amount="') and re.match(r'^[ +]*[0-9]{6,}', x[21:]))]
         a = ' '.join(parts)
-        if where == 'root':
-            rootattrs.append(a)
-        elif where == 'top':
-            top.append('<%s %s>%s</%s>' % (el, a, content, el))
-        elif where == 'sort':
-            sorts.append('<%s %s/>' % (el, a))
-        elif where == 'call':
-            calls.append('<%s %s/>' % (el, a))
-        elif el == 'lre':
-            body.append('<lit %s>%s</lit>' % (a, content))
-        else:
-            body.append('<%s %s>%s</%s>' % (el, a, content, el))
-    decl = ''.join('<xsl:param name="%s"/>' % p for p in sorted(params))
-    root = ('<xsl:stylesheet xmlns:xsl="http://www.w3.org/1999/XSL/Transform" xmlns:x="urn:x" xmlns:xalan="http://xml.apache.org/xalan" %s>' % ' '.join(rootattrs)) if rootattrs else \
-           '<xsl:stylesheet version="1.0" xmlns:xsl="http://www.w3.org/1999/XSL/Transform" xmlns:x="urn:x" xmlns:xalan="http://xml.apache.org/xalan">'
-    sheet = (root + decl + ''.join(top) + '<xsl:template match="/"><out><xsl:for-each select="//*">' + ''.join(sorts) + '<i>' + ''.join(body) +
-             '<xsl:call-template name="r">' + ''.join(calls) + '</xsl:call-template><xsl:value-of select="format-number(1234.5, \'#,##0.0\')"/></i></xsl:for-each><xsl:apply-templates select="//node()|//@*"/><xsl:value-of select="count(key(\'kk\', \'a\'))"/></out></xsl:template>'
-             '<xsl:template name="r"><xsl:param name="n"/>r</xsl:template></xsl:stylesheet>')
+        _place_instruction(el, where, a, content, top, body, sorts, calls, rootattrs)
+    sheet = _attribute_frame(top, body, sorts, calls, rootattrs, params)
     return sheet, params, '; '.join(desc)
 
 
@@ -566,6 +612,38 @@ PLACES = ['@', 'x@', '@x', '<e/>@', '^'] + CONTAINERS + [
     '^<xsl:decimal-format name="d3">@</xsl:decimal-format>', '^<xsl:import href="x.xsl">@</xsl:import>', '^<xsl:strip-space elements="b">@</xsl:strip-space>', '^<lre>@</lre>', '^<n:lre xmlns:n="urn:n">@</n:lre>']
 
 
+def attribute_sweep_case(ctx, idx, res):
+    """every hostile value of every attribute of the 25 instruction shapes, one at a time (the generated family combines them at random)"""
+    d = ctx.drv(FLAVOUR)
+    ii, ai, v, as_param = ATTRIBUTE_SWEEP[idx]
+    xsl, hp, what = attribute_sweep_sheet(ii, ai, v, as_param)
+    res.sig = 'attribute-sweep'
+    res.evals = 0
+    t = d.call(cmd='tnew')['t'].decode()
+    try:
+        for pn, pv in hp.items():
+            d.call(cmd='param', t=t, kind='xstr', name=pn, value=pv.encode('utf-8', 'surrogatepass'))
+        try:
+            rp = d.call(cmd='transform', t=t, src='stream', sty='stream', tgt='stream', xml=GOOD_XML, xsl=xsl.encode('utf-8', 'surrogatepass'))
+        except DriverDied as ex:
+            ex.request = dict(ex.request or {}, kind='attribute-sweep')
+            raise
+        res.evals += 1
+        res.count('attribute_sweep_transformations')
+        check_reply(res, rp, 'transformation with %s' % what, {'kind': 'attribute-sweep', 'stylesheet': xsl, 'document': GOOD_XML, 'params': hp}, 'attribute-sweep')
+        if hp:
+            d.call(cmd='param', t=t, kind='clear', name='', value='')
+        rp = d.call(cmd='transform', t=t, src='stream', sty='stream', tgt='stream', xml=FOLLOW_XML, xsl=FOLLOW_XSL)
+        res.evals += 1
+        if rp.get('status') != b'0' or rp.get('out') != follow_expected(ctx, d):
+            res.viol('unusable-after|attribute-sweep', 'after %s the same transformer no longer performs a known-good transformation: status %s, %r' % (what, rp.get('status'), (rp.get('err') or rp.get('out') or b'')[:200]),
+                     {'kind': 'attribute-sweep', 'stylesheet': xsl})
+    finally:
+        if d.alive():
+            d.call(cmd='tdel', t=t)
+    res.sample = {'kind': 'attribute-sweep', 'what': what}
+
+
 def misplaced_sweep_case(ctx, idx, res):
     """every element of the XSLT vocabulary in every place of a stylesheet, allowed or not: compiled and, where it compiles, run; then the follow-up"""
     d = ctx.drv(FLAVOUR)
@@ -771,11 +849,12 @@ def main():
     chk.run_cases('c03', 'leaf_sweep_case', range(len(LEAVES) * len(OUTER)))
     chk.run_cases('c03', 'pattern_sweep_case', range(len(V_PATTERN) * len(PATTERN_SLOTS)))
     chk.run_cases('c03', 'misplaced_sweep_case', range(len(VOCABULARY) * len(PLACES)))
+    chk.run_cases('c03', 'attribute_sweep_case', range(len(ATTRIBUTE_SWEEP)))
     chk.run_cases('c03', 'dtd_case', range(n // 4))
     if chk.tier == 'thorough' or os.environ.get('VERIF_FUZZ'):
         chk.ensure('fuzz', 'xvfuzz')
         chk.run_cases('c03', 'fuzz_case', range(16))
-    chk.finish(min_nontrivial=8, required_stats=('failures_reported', 'successes', 'still_usable', 'xpath_calls', 'serializer_calls', 'attribute_cases', 'integer_conversions', 'nesting_cases', 'operator_runs', 'leaf_sweep_transformations', 'pattern_sweep_transformations', 'misplaced_sweep_transformations', 'dtd_transformations'))
+    chk.finish(min_nontrivial=8, required_stats=('failures_reported', 'successes', 'still_usable', 'xpath_calls', 'serializer_calls', 'attribute_cases', 'integer_conversions', 'nesting_cases', 'operator_runs', 'leaf_sweep_transformations', 'pattern_sweep_transformations', 'misplaced_sweep_transformations', 'attribute_sweep_transformations', 'dtd_transformations'))
 
 
 if __name__ == '__main__':
